@@ -201,13 +201,13 @@ example : (SerfModel.QueryHandle.runQ (fun _ _ => none) { name := "n", tags := [
 after the initial `Increment()` — the start state `Buf.start N clock (last + 1)` of
 the theorems above. -/
 theorem C14_gen_restart_cutoff :
-    SerfModel.Gen.RestartText.eventMinTime = "oldEventClock + 1"
-    ∧ SerfModel.Gen.RestartText.queryMinTime = "oldQueryClock + 1"
-    ∧ SerfModel.Gen.RestartText.oldEventClock = "snap.LastEventClock()"
-    ∧ SerfModel.Gen.RestartText.oldQueryClock = "snap.LastQueryClock()"
+    -- local names do not occur: a local assigned once from a short expression is replaced by
+    -- that expression, every other local (the node, the snapshotter) by `_`
+    SerfModel.Gen.RestartText.eventMinTime = "(_.LastEventClock()) + 1"
+    ∧ SerfModel.Gen.RestartText.queryMinTime = "(_.LastQueryClock()) + 1"
     ∧ SerfModel.Gen.RestartText.clockCalls =
-        ["serf.eventClock.Increment()", "serf.queryClock.Increment()",
-         "serf.eventClock.Witness(oldEventClock)", "serf.queryClock.Witness(oldQueryClock)"] := by decide
+        ["_.eventClock.Increment()", "_.queryClock.Increment()",
+         "_.eventClock.Witness((_.LastEventClock()))", "_.queryClock.Witness((_.LastQueryClock()))"] := by decide
 
 /-- **Source tie (regenerated on every run): the cut-off is only ever RAISED after the
 restart.**  The only later write of `eventMinTime` (join with ignore-old in
